@@ -6,11 +6,18 @@ From Attrs Require Import Base C03.Common C03.Model.
 
 (** ** decidable equalities of the observation types *)
 Definition log := list (cval * cval).
-Definition pair_eqb (a b : cval * cval) : bool :=
-  cval_eqb (fst a) (fst b) && cval_eqb (snd a) (snd b).
-Definition obs1 := (pyres * log)%type.
+(** a value-level operator call seen by the harness: [a == b] reached a scripted
+    object's [__eq__] ([CEq]) or [a != b] reached its [__ne__] ([CNe]).  The model
+    only ever produces [CEq]: generated [__eq__] AND [__ne__] compare values with [==]. *)
+Inductive vcall := CEq (a b : cval) | CNe (a b : cval).
+Definition vcall_eqb (x y : vcall) : bool :=
+  match x, y with
+  | CEq a b, CEq c d | CNe a b, CNe c d => cval_eqb a c && cval_eqb b d
+  | _, _ => false
+  end.
+Definition obs1 := (pyres * list vcall)%type.
 Definition obs1_eqb (a b : obs1) : bool :=
-  pyres_eqb (fst a) (fst b) && list_eqb pair_eqb (snd a) (snd b).
+  pyres_eqb (fst a) (fst b) && list_eqb vcall_eqb (snd a) (snd b).
 
 Lemma cval_eqb_spec a b : cval_eqb a b = true <-> a = b.
 Proof.
@@ -36,17 +43,16 @@ Proof.
   - inversion H; subst. now apply outcome_eqb_spec.
 Qed.
 
-Lemma pair_eqb_spec a b : pair_eqb a b = true <-> a = b.
+Lemma vcall_eqb_spec a b : vcall_eqb a b = true <-> a = b.
 Proof.
-  destruct a, b; unfold pair_eqb; cbn. rewrite andb_true_iff, !cval_eqb_spec. split.
-  - intros [-> ->]; reflexivity.
-  - intros H; inversion H; auto.
+  destruct a as [a1 a2|a1 a2], b as [b1 b2|b1 b2]; cbn; try (split; intros H; discriminate);
+    rewrite andb_true_iff, !cval_eqb_spec; (split; [intros [-> ->]; reflexivity | intros H; inversion H; auto]).
 Qed.
 
 Lemma obs1_eqb_spec a b : obs1_eqb a b = true <-> a = b.
 Proof.
   destruct a, b; unfold obs1_eqb; cbn.
-  rewrite andb_true_iff, pyres_eqb_spec, (list_eqb_spec pair_eqb pair_eqb_spec). split.
+  rewrite andb_true_iff, pyres_eqb_spec, (list_eqb_spec vcall_eqb vcall_eqb_spec). split.
   - intros [-> ->]; reflexivity.
   - intros H; inversion H; auto.
 Qed.
@@ -84,11 +90,11 @@ Definition attrs_at (chain : list cls) (i : nat) : list fld :=
 
 (** the harness only sees calls that reach a scripted object's [__eq__], as
     (self, other) of that call *)
-Fixpoint visible (l : log) : log :=
+Fixpoint visible (l : log) : list vcall :=
   match l with
   | [] => []
-  | (Vs i, b) :: r => (Vs i, b) :: visible r
-  | (a, Vs j) :: r => (Vs j, a) :: visible r
+  | (Vs i, b) :: r => CEq (Vs i) b :: visible r
+  | (a, Vs j) :: r => CEq (Vs j) a :: visible r
   | _ :: r => visible r
   end.
 
